@@ -366,8 +366,9 @@ func enc(r *c.Rng, s string) string {
 	switch r.Intn(6) {
 	case 0: // every byte percent-encoded
 		var b strings.Builder
+		mask := r.Int63() // one draw whatever the length (sealed codes vary in length from run to run)
 		for i := 0; i < len(s); i++ {
-			if r.Chance(0.5) {
+			if mask>>(uint(i)%63)&1 == 1 {
 				fmt.Fprintf(&b, "%%%02X", s[i])
 			} else {
 				fmt.Fprintf(&b, "%%%02x", s[i])
@@ -615,10 +616,9 @@ func (g *gen) corrupt(v string) string {
 	switch r.Intn(8) {
 	case 0: // one character changed, away from the last two (whose low bits may be unused)
 		i := r.Intn(len(v) - 3)
-		ch := alpha[r.Intn(64)]
-		for ch == v[i] {
-			ch = alpha[r.Intn(64)]
-		}
+		// a different character with exactly one draw (the ciphertext is random: the number of draws
+		// must not depend on it, or the rest of the stream would not be a function of the seed)
+		ch := alpha[(strings.IndexByte(alpha, v[i])+1+r.Intn(63))%64]
 		return v[:i] + string(ch) + v[i+1:]
 	case 1: // truncated
 		return v[:len(v)-4*(1+r.Intn(5))]
